@@ -6,11 +6,11 @@
    the RocksDB backend on rdb_db f is longest-prefix match - the counterpart of
    C03_cdb_is_lpm, with no hypothesis on the database left.
    Uses the grouping argument of Proofs/LinkRdbDb.v and the squash property. *)
-From DnsV Require Import Base.Bytes Base.Ip Spec.Lpm Model.Rearranger Model.Location.
+From DnsV Require Import Base.Bytes Base.Ip Spec.Lpm Model.Rearranger Model.Location Model.Ecs.
 From DnsV Require Import Model.Compile Spec.MapOfLists.
 From DnsV Require Import Proofs.MultiValue Proofs.MapOfLists Proofs.Batch.
 From DnsV Require Import Proofs.Lpm Proofs.Location Proofs.Rearranger Proofs.RdbLocate Proofs.SquashKeys.
-From DnsV Require Import Proofs.LinkEcsLpm Proofs.LinkRdbDb.
+From DnsV Require Import Proofs.Ecs Proofs.LinkEcsLpm Proofs.LinkRdbDb.
 From Coq Require Import Lia Permutation.
 Open Scope N_scope.
 
@@ -174,4 +174,69 @@ Proof.
   destruct Hm as [ms ->]. rewrite rp_kvs_maps_accum.
   destruct (rp_accum_total sort Hsort _ Hw (dedup_ids (map nl_map (f_nets f)))) as [acc ->].
   cbn [rbind]. eexists. reflexivity.
+Qed.
+
+(* ---------------------------------------------------------------- C10 on the RocksDB database of a data file *)
+
+Theorem scope_truthful_rdb_file : forall sort v2 f db fm8 fmM, sort_spec sort ->
+  wf_kinds f = true -> (forall m, wf_subnets (nets_of f m)) -> rdb_db sort v2 f = Ok db ->
+  forall ev q r e mo8 moM rip,
+  fm8 = Ok mo8 -> fmM = Ok moM -> q_rip q = Some rip -> rip < two128 ->
+  badvers q = false -> no_backend_error ev ->
+  query_ecs q = Some e -> wf_ecs e ->
+  serve fm8 fmM (rdb_get_location db) ev q = Reply r ->
+  exists e', reply_ecs r = Some e' /\
+    e_scope e' = expected_scope (nets_of f) (map_of mo8) e /\
+    (e_fam e = 1 -> e_scope e' <= 32) /\ (e_fam e = 2 -> e_scope e' <= 128).
+Proof.
+  intros sort v2 f db fm8 fmM Hs Hk Hw E.
+  exact (scope_truthful_rdb sort (nets_of f) db fm8 fmM Hs Hw (rdb_db_holds_points sort v2 f db Hs Hk Hw E)).
+Qed.
+
+Theorem fallback_to_resolver_rdb_file : forall sort v2 f db fm8 fmM, sort_spec sort ->
+  wf_kinds f = true -> (forall m, wf_subnets (nets_of f m)) -> rdb_db sort v2 f = Ok db ->
+  forall ev q r mo8 moM rip,
+  fm8 = Ok mo8 -> fmM = Ok moM -> q_rip q = Some rip -> rip < two128 ->
+  badvers q = false -> no_backend_error ev ->
+  (forall e, query_ecs q = Some e -> wf_ecs e) ->
+  serve fm8 fmM (rdb_get_location db) ev q = Reply r ->
+  r_loc r = match query_ecs q with
+            | Some e => if id_eqb (ecs_decides (nets_of f) (map_of mo8) e) (0, 0)
+                        then resolver_decides (nets_of f) (map_of moM) rip
+                        else ecs_decides (nets_of f) (map_of mo8) e
+            | None => resolver_decides (nets_of f) (map_of moM) rip
+            end.
+Proof.
+  intros sort v2 f db fm8 fmM Hs Hk Hw E.
+  exact (fallback_to_resolver_rdb sort (nets_of f) db fm8 fmM Hs Hw (rdb_db_holds_points sort v2 f db Hs Hk Hw E)).
+Qed.
+
+(* ---------------------------------------------------------------- outside the guard (finding F20) *)
+
+(* ::/1 together with 255.0.0.0/8 (which ends where the v4-mapped block ends): Rearrange
+   returns the null point at ::1:0:0:0 twice - two range points share one key *)
+Theorem rearrange_keys_distinct_refuted :
+  exists S pts, wf_but_overlap S = true /\ rearrange isort S = Ok pts /\
+    ~ NoDup (map (fun p => (p_ip p, rp_mlen p)) pts).
+Proof.
+  exists [mkSubnet 0 1 (0, 1); mkSubnet (after_v4 - 2 ^ 24) 104 (1, 6)]. eexists.
+  split; [vm_compute; reflexivity|]. split; [vm_compute; reflexivity|].
+  intro H. vm_compute in H.
+  do 4 (apply NoDup_cons_iff in H; destruct H as [_ H]).
+  apply NoDup_cons_iff in H. destruct H as [H _]. apply H. left. reflexivity.
+Qed.
+
+(* ... and the compiled record under that key holds two chunks: GetLocationByMap fails
+   (Invalid location length) for a client that longest-prefix match places in ::/1 *)
+Theorem rdb_file_is_lpm_refuted :
+  exists f m db a, wf_kinds f = true /\ wf_but_overlap (nets_of f m) = true /\ rdb_db isort false f = Ok db /\
+    a < two128 /\
+    rdb_get_location db m (mkClient (Some a) 128 128) = Err 2 /\
+    lpm (nets_of f m) (fam a) a 128 = Some ((0, 1), 1).
+Proof.
+  exists (mkDfile [] [mkNetline (0, 7) (mkSubnet 0 1 (0, 1)); mkNetline (0, 7) (mkSubnet (after_v4 - 2 ^ 24) 104 (1, 6))]),
+         (0, 7).
+  eexists. exists (after_v4 + 5).
+  split; [reflexivity|]. split; [vm_compute; reflexivity|]. split; [vm_compute; reflexivity|].
+  split; [vm_compute; reflexivity|]. split; vm_compute; reflexivity.
 Qed.
